@@ -156,13 +156,14 @@ def make_model(seed):
 def _probe(model):
     """forward output and ordinary gradients on a fixed probe batch, eval mode, fault layers disarmed"""
     Xp = nets.one_hot([[0, 1, 2, 3, 0, 1, 2, 3, 3, 2, 1, 0], [3, 3, 2, 2, 1, 1, 0, 0, 1, 2, 3, 0]]).requires_grad_(True)
-    was = model.training
+    modes = [(m, m.training) for m in model.modules()]     # per-module flags: the probe itself must not change the model's state
     model.eval()
     with torch.enable_grad():
         y = model(Xp)
         grads = torch.autograd.grad((y * torch.tensor([1.0, -2.0, 3.0], dtype=torch.float64)).sum(),
                                     [Xp] + [p for p in model.parameters() if p.requires_grad], allow_unused=True)
-    model.train(was)
+    for m, flag in modes:
+        m.training = flag
     return y.detach(), [None if g is None else g.detach() for g in grads]
 
 
